@@ -23,8 +23,16 @@ def main(argv):
         out = props.run(prop, tier, seed, scratch, build)
     except Exception:
         traceback.print_exc()
-        print("INTERNAL-ERROR property=%s" % prop)
-        return 2
+        if not (build.get("ok_model") and build.get("ok_proofs")):
+            print("INTERNAL-ERROR property=%s" % prop)
+            return 2
+        # model and proofs are fine; the harness itself broke down while driving or interpreting the implementation under
+        # test (it does not on the pinned tree): the correspondence cannot be established on this tree — a broken tie, reported
+        out = props.Outcome(prop, tier, seed)
+        out.cfg = None
+        out.violation({"kind": "no-failing-input-found",
+                       "no_longer_checks": ["correspondence of %s: the harness could not drive / interpret the implementation under test" % prop],
+                       "traceback": traceback.format_exc()[-3000:]}, nofail=True)
     out.finish(build, time.time() - t0)
     return out.exit_code
 
